@@ -160,10 +160,35 @@ func combos(cs []Combo) tax.Set {
 	return s
 }
 
+// reasonFor: key, code and reason of a discount or charge are optional.  About a third of the rows
+// that have an effect (a non-zero percentage, rate or fixed amount) carry none of them — chosen from
+// the row's own figures, so that a replayed case builds the same document; rows without any effect
+// always carry a reason, because a row with no member at all is legitimately dropped as empty.
+func reasonFor(percent, rate *Amt, amount Amt) string {
+	var h int64
+	switch {
+	case percent != nil && percent.V != 0:
+		h = percent.V + int64(percent.E)
+	case rate != nil && rate.V != 0:
+		h = rate.V + int64(rate.E)
+	case percent == nil && rate == nil && amount.V != 0:
+		h = amount.V + int64(amount.E)
+	default:
+		return "r"
+	}
+	if h < 0 {
+		h = -h
+	}
+	if h%3 == 0 {
+		return ""
+	}
+	return "r"
+}
+
 func lineDiscounts(ds []LineAdj) []*bill.LineDiscount {
 	var out []*bill.LineDiscount
 	for _, d := range ds {
-		out = append(out, &bill.LineDiscount{Reason: "r", Base: numPtr(d.Base), Percent: pctPtr(d.Percent), Amount: d.Amount.Num()})
+		out = append(out, &bill.LineDiscount{Reason: reasonFor(d.Percent, nil, d.Amount), Base: numPtr(d.Base), Percent: pctPtr(d.Percent), Amount: d.Amount.Num()})
 	}
 	return out
 }
@@ -171,7 +196,7 @@ func lineDiscounts(ds []LineAdj) []*bill.LineDiscount {
 func lineCharges(ds []LineAdj) []*bill.LineCharge {
 	var out []*bill.LineCharge
 	for _, d := range ds {
-		out = append(out, &bill.LineCharge{Reason: "r", Base: numPtr(d.Base), Percent: pctPtr(d.Percent), Amount: d.Amount.Num(),
+		out = append(out, &bill.LineCharge{Reason: reasonFor(d.Percent, d.Rate, d.Amount), Base: numPtr(d.Base), Percent: pctPtr(d.Percent), Amount: d.Amount.Num(),
 			Rate: numPtr(d.Rate), Quantity: numPtr(d.Quantity)})
 	}
 	return out
@@ -210,10 +235,10 @@ func (d *Doc) Invoice() *bill.Invoice {
 		inv.Lines = append(inv.Lines, bl)
 	}
 	for _, x := range d.Discounts {
-		inv.Discounts = append(inv.Discounts, &bill.Discount{Reason: "r", Base: numPtr(x.Base), Percent: pctPtr(x.Percent), Amount: x.Amount.Num(), Taxes: combos(x.Taxes)})
+		inv.Discounts = append(inv.Discounts, &bill.Discount{Reason: reasonFor(x.Percent, nil, x.Amount), Base: numPtr(x.Base), Percent: pctPtr(x.Percent), Amount: x.Amount.Num(), Taxes: combos(x.Taxes)})
 	}
 	for _, x := range d.Charges {
-		inv.Charges = append(inv.Charges, &bill.Charge{Reason: "r", Base: numPtr(x.Base), Percent: pctPtr(x.Percent), Amount: x.Amount.Num(), Taxes: combos(x.Taxes)})
+		inv.Charges = append(inv.Charges, &bill.Charge{Reason: reasonFor(x.Percent, nil, x.Amount), Base: numPtr(x.Base), Percent: pctPtr(x.Percent), Amount: x.Amount.Num(), Taxes: combos(x.Taxes)})
 	}
 	for _, r := range d.Rates {
 		inv.ExchangeRates = append(inv.ExchangeRates, &currency.ExchangeRate{From: currency.Code(r.From), To: currency.Code(r.To), Amount: r.Amount.Num()})
